@@ -297,6 +297,26 @@ def _encoding(r, p):
             r.ok("C17.encoding", key + ":write-back", "self.__dict__[name] = oConfig.dConfig['rule'][...][name]")
         else:
             r.fail("C17.encoding", key + ":write-back", "reader does not write the configured value back under the same name", fi.loc())
+    # a rule that was never configured carries its own built-in severity object; the emitted file names it, and reading the
+    # file back resolves the name through the list.  The two agree only if a name resolves to the *first* entry of that name
+    # with the built-ins in front (a user section may re-declare `Error`): last-wins resolution changes the type on reload.
+    gs = p.function("vsg.severity:create_list.get_severity_named")
+    loops_ = [n for n in walk_function(gs.node) if isinstance(n, ast.For)]
+    first = False
+    if len(loops_) == 1 and norm(loops_[0].iter) == "self.lSeverities" and isinstance(loops_[0].target, ast.Name):
+        el = loops_[0].target.id
+        for x in ast.walk(loops_[0]):
+            if isinstance(x, ast.If) and isinstance(x.test, ast.Compare) and len(x.test.ops) == 1 and isinstance(x.test.ops[0], ast.Eq) and {norm(x.test.left), norm(x.test.comparators[0])} == {gs.params[1], el + ".name"} and any(isinstance(y, ast.Return) and norm(y.value) == el for y in x.body):
+                first = True
+    if any(isinstance(n, (ast.Dict, ast.DictComp)) or (isinstance(n, ast.Call) and norm(n.func) in ("dict", "reversed")) for n in walk_function(gs.node)):
+        first = False
+    ini = p.function("vsg.severity:create_list.__init__")
+    order = [(n.lineno, norm(n.func)) for n in walk_function(ini.node) if isinstance(n, ast.Call) and norm(n.func) in ("_add_built_in_severities", "_update_severities_from_configuration")]
+    builtin_first = [x[1] for x in sorted(order)] == ["_add_built_in_severities", "_update_severities_from_configuration"]
+    if first and builtin_first:
+        r.ok("C17.encoding", gs.key + ":first-match", "a severity name resolves to the first entry of that name; built-ins are inserted first")
+    else:
+        r.fail("C17.encoding", gs.key + ":first-match", "a severity name no longer resolves to the first entry of the list with the built-ins in front: a rule that kept its built-in severity is emitted by name and comes back as a user re-declaration of that name (other type), so the emitted file does not reproduce the run", gs.loc())
     # deprecated rules skipped on emission
     rg = p.function("vsg.rule_list:rule_list.get_configuration")
     loops = [n for n in walk_function(rg.node) if isinstance(n, ast.For) and norm(n.iter) == "self.rules"]
@@ -328,6 +348,8 @@ def _encoding(r, p):
 
 
 VARIANTS = [
+    Variant("C17", "severity names resolved through a dictionary (last declaration wins)", "fire",
+            [("vsg/severity.py", "        for oSeverity in self.lSeverities:\n            if sName == oSeverity.name:\n                return oSeverity\n        return None", "        dSeverities = {oSeverity.name: oSeverity for oSeverity in self.lSeverities}\n        return dSeverities.get(sName)")], rule="C17.encoding", key="first-match"),
     Variant("C17", "optional sections copied inside one try that swallows KeyError", "fire",
             [("vsg/__main__.py", "        for sKey in [\"file_rules\", \"linesep\", \"severity\", \"skip_phase\"]:\n            if sKey in configuration:\n                dOutputConfiguration[sKey] = configuration[sKey]\n", "        try:\n            for sKey in [\"file_rules\", \"linesep\", \"severity\", \"skip_phase\"]:\n                dOutputConfiguration[sKey] = configuration[sKey]\n        except KeyError:\n            pass\n")], rule="C17.sections"),
     Variant("C17", "twin: each optional section copied under its own try", "silent",
